@@ -1,4 +1,63 @@
 package main
 
-// moreTransports is extended by the tcp-conn world.
-func moreTransports() []tdesc { return nil }
+import (
+	"context"
+
+	"github.com/plgd-dev/go-coap/v3/message"
+	"github.com/plgd-dev/go-coap/v3/message/codes"
+	"github.com/plgd-dev/go-coap/v3/message/pool"
+	"github.com/plgd-dev/go-coap/v3/net/blockwise"
+
+	"verif/vrt"
+	"verif/worlds/tcpw"
+)
+
+func moreTransports() []tdesc {
+	return []tdesc{
+		{"tcp", func() transport { return &tcpT{} }, []bool{false}},
+		{"tcp+handshake", func() transport { return &tcpT{hs: true} }, []bool{false}},
+	}
+}
+
+// tcpT: tcp/client.Conn over the in-memory stream; with hs the net.Conn has a HandshakeContext
+// (the code path TLS connections take inside go-coap: handshake before the first read/write).
+type tcpT struct {
+	w    *tcpw.World
+	hs   bool
+	pmid int32
+}
+
+func (t *tcpT) Name() string   { return "tcp" }
+func (t *tcpT) Datagram() bool { return false }
+func (t *tcpT) Build(bw bool) {
+	o := tcpw.Opts{LimitTotal: 8, LimitEndpoint: 8, QueueSize: 4, BlockWise: bw, SZX: blockwise.SZX16, DisableCSM: true}
+	if t.hs {
+		o.Handshake = func(context.Context) error { return nil }
+	}
+	t.w = tcpw.New(o)
+	if bw {
+		// the peer announces block-wise support, as RFC 8323 requires before Block options are used
+		bo := make([]byte, 4)
+		opts, _, _ := message.Options{}.SetUint32(bo, message.TCPBlockWiseTransfer, 0)
+		opts[0].Value = nil
+		t.w.Inject(message.Message{Code: codes.CSM, Options: opts})
+		vrt.Quiesce("tcp: CSM consumed")
+	}
+}
+func (t *tcpT) Acquire(ctx context.Context) *pool.Message   { return t.w.CC.AcquireMessage(ctx) }
+func (t *tcpT) Do(req *pool.Message) (*pool.Message, error) { return t.w.CC.Do(req) }
+func (t *tcpT) Release(m *pool.Message)                     { t.w.CC.ReleaseMessage(m) }
+func (t *tcpT) NewOuts() []message.Message {
+	ms := t.w.NewOuts()
+	for _, m := range ms {
+		vrt.Observe("wire-out %s", tcpw.Describe(m))
+	}
+	return ms
+}
+func (t *tcpT) Inject(m message.Message) {
+	vrt.Observe("wire-in %s", tcpw.Describe(m))
+	m.Type, m.MessageID = 0, 0
+	t.w.Inject(m)
+}
+func (t *tcpT) PeerMID() int32   { t.pmid++; return t.pmid }
+func (t *tcpT) Errors() []string { return t.w.Errors }
